@@ -679,12 +679,25 @@ class KernelInterp(ClassInterp):
             v = self.ev(e.args[0], env)
             if isinstance(v, Int):
                 return Int(abs(v.v))
+            if isinstance(v, Sym) and len(v.coef) == 1 and v.c == 0:
+                (nm, k), = v.coef.items()
+                if self.sign_of(Sym({nm: abs(k)})) == 'POS':
+                    return Sym({nm: abs(k)})
             raise Arith('abs')
         if fn == 'int':
             v = self.ev(e.args[0], env)
             if isinstance(v, Int):
                 return Int(int(v.v))
             raise Arith('int()')
+        if fn == 'pow':
+            args = [self.ev(a, env) for a in e.args]
+            if all(isinstance(a, Int) for a in args):
+                return Int(pow(*[a.v for a in args]))
+            if len(args) == 3 and isinstance(args[2], Int) and args[2].v == 0:
+                raise Raised('ValueError')
+            if len(args) == 3 and isinstance(args[2], Sym):
+                return Sym({'powmod': 1})        # 0 <= value < modulus: sign class unknown
+            raise Arith('pow()')
         if fn in ('mpf_pos', 'mpf_neg', 'mpf_abs') and self.summarise_normals and e.args:
             v = self.coerce_raw(self.ev(e.args[0], env))
             if isinstance(v, Raw) and v.kind == 'FIN':
